@@ -43,16 +43,33 @@
 //! * connection: `num` only together with `ttl` for IP4 (ezk's own unit test
 //!   `connection_print_num_without_ttl` documents that `num` without `ttl` is not printed) and never a
 //!   `ttl` for IP6 (RFC 8866 5.7);
-//! * bandwidth type / attribute names: non-empty RFC 8866 `token`s; unknown attributes are never named
-//!   like an attribute the crate parses itself (DESIGN "Not asserted");
+//! * bandwidth type / attribute names: non-empty RFC 8866 `token`s; an unknown attribute is never
+//!   spelled like an attribute the crate parses itself IN THE FORM THE CRATE PARSES IT (DESIGN "Not
+//!   asserted"): never a value-less `sendrecv` / `recvonly` / `sendonly` / `inactive` /
+//!   `end-of-candidates`, never a valued `rtpmap` / `fmtp` / `rtcp` / `ice-options` / `ice-ufrag` /
+//!   `ice-pwd` / `candidate` / `crypto`, never `ice-lite` with or without a value (the crate reads that
+//!   one in both forms). The OTHER FORM of such a name is an ordinary unknown attribute the API holds
+//!   and is generated (`attr_other_form`): RFC 8866 `attribute = (attribute-name ":" attribute-value) /
+//!   attribute-name` — a flag name WITH a value (`a=sendonly:x`, `a=end-of-candidates:1`, also with an
+//!   empty value) and a valued name WITHOUT one (`a=rtpmap`, `a=crypto`), at session and at media level;
 //! * ice-options tags 1..8 `ice-char`, ufrag 4..256, pwd 22..256 `ice-char`;
 //! * rtpmap encoding: non-empty token without `/`; rtpmap params: non-empty, no whitespace;
 //! * fmtp params: non-empty, first character not an ASCII blank (DESIGN "Not asserted"); a first
 //!   character that is a non-ASCII white-space code point is ordinary `byte-string` content;
 //! * crypto: 1..3 keys (never an empty key list, never `FecKey([])`), key text non-empty base64
 //!   alphabet, `Ext` suite `[A-Za-z0-9_]+` that is not exactly a well-known suite name, `Ext` session
-//!   parameter: visible ASCII, not starting with `-`, not starting with a well-known parameter name
-//!   followed by `=` and not exactly a well-known flag;
+//!   parameter: visible ASCII, not starting with `-`, not exactly a well-known flag and never a
+//!   well-known keyed parameter WITH A VALUE OF ITS GRAMMAR. Freely drawn texts that start with
+//!   `KDR=` / `WSH=` / `FEC_ORDER=` / `FEC_KEY=` are renamed; what is generated on purpose
+//!   (`param_ext_other_form`) is a well-known NAME in a form that is not the well-known parameter, so
+//!   that `Ext` is the only variant able to hold it: `KDR=` / `WSH=` + a NUMERIC LOOK-ALIKE that is not
+//!   `1*DIGIT` within u32 (`numeric_lookalike`: empty, signed `+5` / `-5` / `+0`, digits with leading /
+//!   trailing junk `5x` `0x10` `5.0` `5e3` `5=6` `5;WSH=64`, values above u32::MAX up to 39 digits),
+//!   `FEC_ORDER=` + anything but exactly `FEC_SRTP` / `SRTP_FEC` (empty, other case, extended, a part,
+//!   both), `FEC_KEY=` + a text that is no `inline:<base64>[|lifetime][|mki:len]` list (no / other-case
+//!   method, no key, trailing `;` or `|`, a third `|` field, signed / overflowing / `2^n>=32` lifetime,
+//!   a malformed MKI), a keyed name without `=` (`KDR`, `WSH:5`), a flag followed by `=value`
+//!   (`UNENCRYPTED_SRTP=1`);
 //! * `Other(protocol)` is never exactly `udp`, `RTP/AVP`, `RTP/SAVP`, `RTP/SAVPF`.
 
 use proptest::collection::vec;
@@ -273,6 +290,46 @@ pub const KNOWN_ATTR_NAMES: [&str; 14] = [
     "inactive",
     "end-of-candidates",
 ];
+/// the known names the crate reads as a value-less flag ...
+pub const FLAG_ATTR_NAMES: [&str; 5] = ["sendrecv", "recvonly", "sendonly", "inactive", "end-of-candidates"];
+/// ... and the ones it reads only together with a value. `ice-lite` is in neither list: the crate
+/// reads it with and without a value, so no form of it is an unknown attribute.
+pub const VALUED_ATTR_NAMES: [&str; 8] =
+    ["rtpmap", "fmtp", "rtcp", "ice-options", "ice-ufrag", "ice-pwd", "candidate", "crypto"];
+
+/// An unknown attribute whose name is a known one in the form the crate does NOT interpret:
+/// a flag name with a value, a valued name without one.
+pub fn attr_other_form(a: &AttrC) -> Option<&'static str> {
+    if a.value.is_some() && FLAG_ATTR_NAMES.contains(&a.name.as_str()) {
+        Some("flag-name+value")
+    } else if a.value.is_none() && VALUED_ATTR_NAMES.contains(&a.name.as_str()) {
+        Some("valued-name-without-value")
+    } else {
+        None
+    }
+}
+
+/// the (name, value?) pair is spelled like an attribute the crate interprets itself
+pub fn attr_is_interpreted(a: &AttrC) -> bool {
+    KNOWN_ATTR_NAMES.contains(&a.name.as_str()) && attr_other_form(a).is_none()
+}
+
+/// Keep an unknown attribute outside the interpreted spellings by changing the PRESENCE of its
+/// value (used after a near duplicate took over another element's name): a flag name gets an empty
+/// value, a valued name loses its value; `ice-lite` (both forms interpreted) is renamed.
+pub fn keep_attr_unknown(a: &mut AttrC) {
+    if !attr_is_interpreted(a) {
+        return;
+    }
+    if FLAG_ATTR_NAMES.contains(&a.name.as_str()) {
+        a.value = Some(String::new());
+    } else if VALUED_ATTR_NAMES.contains(&a.name.as_str()) {
+        a.value = None;
+    } else {
+        a.name.push_str("-x");
+    }
+}
+
 pub const PARAM_FLAGS: [&str; 3] = ["UNENCRYPTED_SRTP", "UNENCRYPTED_SRTCP", "UNAUTHENTICATED_SRTP"];
 const PARAM_KEYED: [&str; 4] = ["KDR=", "FEC_ORDER=", "FEC_KEY=", "WSH="];
 /// (name, a value that is valid for the well-known parameter of that name)
@@ -714,8 +771,22 @@ fn attr() -> BoxedStrategy<AttrC> {
         }
         n
     });
-    (name, option::weighted(0.7, line_text(20)))
-        .prop_map(|(name, value)| AttrC { name, value })
+    let regular = (name, option::weighted(0.7, line_text(20))).prop_map(|(name, value)| AttrC { name, value });
+    // a known name in the form the crate does not interpret (see module doc): flag name + value
+    // (empty value included), valued name without a value
+    let other_form = prop_oneof![
+        3 => (
+            prop::sample::select(FLAG_ATTR_NAMES.to_vec()),
+            prop_oneof![1 => Just(String::new()), 2 => "[a-z0-9]{1,4}", 3 => line_text(12)],
+        )
+            .prop_map(|(n, v)| AttrC { name: n.to_string(), value: Some(v) }),
+        2 => prop::sample::select(VALUED_ATTR_NAMES.to_vec()).prop_map(|n| AttrC { name: n.to_string(), value: None }),
+    ];
+    prop_oneof![7 => regular, 1 => other_form]
+        .prop_map(|mut a| {
+            keep_attr_unknown(&mut a);
+            a
+        })
         .boxed()
 }
 
@@ -837,6 +908,148 @@ fn key() -> BoxedStrategy<KeyC> {
         .boxed()
 }
 
+/// `1*DIGIT` whose value a u32 can hold: exactly the texts that ARE the number of a `KDR=` / `WSH=`
+/// parameter (leading zeros included)
+pub fn is_u32_decimal(s: &str) -> bool {
+    if s.is_empty() || !s.bytes().all(|b| b.is_ascii_digit()) {
+        return false;
+    }
+    let t = s.trim_start_matches('0');
+    t.is_empty() || (t.len() <= 10 && t.parse::<u64>().map_or(false, |v| v <= u32::MAX as u64))
+}
+
+/// Visible-ASCII texts that look like a number but are not `1*DIGIT` within u32: what a lenient
+/// integer conversion (sign, radix prefix, separators, wrap-around, saturation) might still accept.
+fn numeric_lookalike() -> BoxedStrategy<String> {
+    let digits = || {
+        prop_oneof![
+            3 => "[0-9]{1,3}",
+            2 => edge_u32().prop_map(|v| v.to_string()),
+            1 => "0[0-9]{1,3}",
+        ]
+    };
+    prop_oneof![
+        1 => Just(String::new()),
+        // a sign: accepted by `FromStr for u32` ('+'), not by 1*DIGIT
+        5 => ("[+-]", digits()).prop_map(|(s, d)| format!("{s}{d}")),
+        1 => prop::sample::select(vec!["+", "-", "++5", "+-5", "+ 5"]).prop_map(|s| s.replace(' ', "_")),
+        // digits followed / preceded by something else
+        3 => (digits(), prop::sample::select(vec!["x", "_", "e3", ".0", "=6", ",6", ";WSH=64", "|", "+", "%", "u32", "_000"]))
+            .prop_map(|(d, j)| format!("{d}{j}")),
+        2 => (prop::sample::select(vec!["x", "0x", "0b", "#", ".", "=", "_", "2^"]), digits()).prop_map(|(j, d)| format!("{j}{d}")),
+        // above u32::MAX
+        3 => prop_oneof![
+            3 => prop::sample::select(vec![
+                "4294967296",
+                "4294967300",
+                "9999999999",
+                "04294967296",
+                "18446744073709551615",
+                "18446744073709551616",
+                "340282366920938463463374607431768211456",
+            ])
+            .prop_map(String::from),
+            2 => "[1-9][0-9]{10,24}",
+            1 => (4_294_967_296u64..=4_294_967_296 + 70_000).prop_map(|v| v.to_string()),
+        ],
+        1 => "[!-~]{1,6}",
+    ]
+    .prop_map(|mut s: String| {
+        if is_u32_decimal(&s) {
+            s.push('x');
+        }
+        s
+    })
+    .boxed()
+}
+
+/// texts behind `FEC_KEY=` that are no list of `inline:<base64>[|lifetime][|mki:len]` (RFC 4568 9.2
+/// `key-params` restricted to the `inline` method, the only one `FecKey` can hold)
+fn non_key_params() -> BoxedStrategy<String> {
+    let b64 = || "[A-Za-z0-9+/]{1,12}={0,2}";
+    prop_oneof![
+        1 => prop::sample::select(vec!["", "inline", "inline:", ":", ";", "inline:;", "inline:|5"]).prop_map(String::from),
+        // no method, a method that is not (byte for byte) `inline`, another separator
+        2 => (prop::sample::select(vec!["", "INLINE:", "Inline:", "inlin:", "inline;", "inline=", "inline::", "x:"]), b64())
+            .prop_map(|(m, k)| format!("{m}{k}")),
+        // a well-formed first key followed by something that is not the rest of a key list
+        6 => (
+            b64(),
+            prop::sample::select(vec![
+                ";", ";x", ";inline", ";inline:", ";;", "|", "|x", "|2^", "|2^x", "|2^32", "|2^99", "|+5", "|-5", "|2^+5",
+                "|4294967296", "|5|", "|5|6", "|1:", "|:4", "|1:2:3", "|1:+4", "|1:4|5", "|5|1:4|9", "|5|1:4;", "|5|1:4294967296",
+                "|2^31|2^3", "*", ",", "|5;inline", "|1:4;INLINE:QUJD",
+            ]),
+        )
+            .prop_map(|(k, t)| format!("inline:{k}{t}")),
+    ]
+    .boxed()
+}
+
+/// `Ext` session parameters that carry a well-known NAME in a form that is not the well-known
+/// parameter (module doc). By construction none of them is a text the grammar of the well-known
+/// parameter covers, so `Ext` is the only variant that can hold them.
+fn param_ext_other_form() -> BoxedStrategy<String> {
+    prop_oneof![
+        6 => (prop::sample::select(vec!["KDR=", "WSH="]), numeric_lookalike()).prop_map(|(k, v)| format!("{k}{v}")),
+        2 => prop_oneof![
+            3 => prop::sample::select(vec![
+                "", "FEC_SRTP2", "SRTP_FECX", "fec_srtp", "srtp_fec", "FEC", "SRTP", "FEC_SRT", "RTP_FEC", "FEC_SRTP,SRTP_FEC",
+                "FEC_SRTP=1", "FEC_SRTPSRTP_FEC", "SRTP_FEC;", "FEC_SRTP|SRTP_FEC", "+FEC_SRTP",
+            ])
+            .prop_map(String::from),
+            1 => (prop::sample::select(vec!["FEC_SRTP", "SRTP_FEC"]), 0u8..7, any::<u16>()).prop_map(|(k, m, sel)| near_miss_of(k, m, sel)),
+            1 => "[!-~]{1,8}",
+        ]
+        .prop_map(|mut v: String| {
+            if v == "FEC_SRTP" || v == "SRTP_FEC" {
+                v.push('_');
+            }
+            format!("FEC_ORDER={v}")
+        }),
+        3 => non_key_params().prop_map(|v| format!("FEC_KEY={v}")),
+        // the keyed names without their '='
+        1 => (
+            prop::sample::select(vec!["KDR", "WSH", "FEC_ORDER", "FEC_KEY"]),
+            prop::sample::select(vec!["", ":5", "5", "-5", ":", ":FEC_SRTP", ":inline:QUJD"]),
+        )
+            .prop_map(|(k, t)| format!("{k}{t}")),
+        // a flag that is given a value
+        1 => (prop::sample::select(PARAM_FLAGS.to_vec()), "=[A-Za-z0-9]{0,3}").prop_map(|(k, v)| format!("{k}{v}")),
+    ]
+    .boxed()
+}
+
+/// which other-form shape (if any) an `Ext` session parameter is — class labels and failure loci
+pub fn param_ext_form(s: &str) -> Option<&'static str> {
+    for k in ["KDR=", "WSH="] {
+        if let Some(v) = s.strip_prefix(k) {
+            let unsigned = v.strip_prefix(['+', '-']).unwrap_or(v);
+            return Some(if v.len() != unsigned.len() && is_u32_decimal(unsigned) {
+                "keyed-name+signed-number"
+            } else if !v.is_empty() && v.bytes().all(|b| b.is_ascii_digit()) {
+                "keyed-name+number-above-u32"
+            } else {
+                "keyed-name+non-number"
+            });
+        }
+    }
+    if s.starts_with("FEC_ORDER=") {
+        return Some("FEC_ORDER+other-value");
+    }
+    if s.starts_with("FEC_KEY=") {
+        return Some("FEC_KEY+non-key-params");
+    }
+    let bare = |r: &str| r.is_empty() || r.starts_with([':', '-']) || r.starts_with(|c: char| c.is_ascii_digit());
+    if ["KDR", "WSH", "FEC_ORDER", "FEC_KEY"].iter().any(|k| s.strip_prefix(k).map_or(false, bare)) {
+        return Some("keyed-name-without-=");
+    }
+    if PARAM_FLAGS.iter().any(|k| s.strip_prefix(k).map_or(false, |r| r.starts_with('='))) {
+        return Some("flag-name+=value");
+    }
+    None
+}
+
 fn param() -> BoxedStrategy<ParamC> {
     prop_oneof![
         2 => edge_u32().prop_map(ParamC::Kdr),
@@ -871,6 +1084,8 @@ fn param() -> BoxedStrategy<ParamC> {
             }
             ParamC::Ext(s)
         }),
+        // a well-known name in a form only `Ext` can hold (sound by construction, no guard)
+        1 => param_ext_other_form().prop_map(ParamC::Ext),
     ]
     .boxed()
 }
@@ -1085,6 +1300,8 @@ pub fn repeat_in_media(m: &mut MediaC, op: &MediaRepeat) {
         6 => insert_copy(&mut m.attributes, op.from, op.to, |x, all| {
             if !exact {
                 x.name = all[pick_idx(other, all.len())].name.clone();
+                // the new name with the copy's own value (or lack of one) may be a spelling the crate interprets
+                keep_attr_unknown(x);
             }
         }),
         7 => {
@@ -1239,6 +1456,7 @@ pub fn repeat_in_session(c: &mut SdpCase, op: &SessionRepeat) {
         2 => insert_copy(&mut c.attributes, op.from, op.to, |x, all| {
             if !exact {
                 x.name = all[pick_idx(other, all.len())].name.clone();
+                keep_attr_unknown(x);
             }
         }),
         3 => insert_copy(&mut c.media, op.from, op.to, |_, _| {}),
